@@ -134,6 +134,14 @@ def gen_lambda(rng, o, depth):
         return ("lam", owner, "any", None, None)
     var = rng.choice(VARS)
     quant = "any" if r < 0.6 else "all"
+    if rng.random() < 0.06:
+        # the variable spelled like the collection itself (tags/any(tags: tags eq 'x')): the
+        # owner is a field reference OUTSIDE the scope it introduces
+        root = owner
+        while root[0] == "attr":
+            root = root[1]
+        if root[0] == "id" and not root[2]:
+            var = root[1] if owner[0] == "id" or rng.random() < 0.5 else owner[2]
     if o.namespaces and o.ns_lambda_vars and rng.random() < 0.05:
         # the variable itself may be namespace-qualified (ns.x: ns.x/a eq 1)
         ns = rng.choice(NAMESPACES)
